@@ -345,6 +345,7 @@ impl Driver for SpecialNotLost {
         let mut used: BTreeSet<(u32, usize)> = BTreeSet::new();
         let mut marker = 3000;
         let mut triggers: Vec<&'static str> = vec![];
+        let mut trigger_markers: BTreeSet<i32> = BTreeSet::new();
         for _ in 0..n {
             let f = *c.t.pick(&lf);
             let ops = &din.funcs[f as usize].ops;
@@ -372,13 +373,6 @@ impl Driver for SpecialNotLost {
             }
             marker += 1;
             let path = pick_path(c, component, true);
-            if mode == IMode::EmptyBlockAlt && !accepts(mode, &ops[at]) {
-                if c.avoid("empty_block_alt_on_non_block_instruction") {
-                    c.steered("empty_block_alt_on_non_block_instruction");
-                    continue;
-                }
-                triggers.push("empty_block_alt_on_non_block_instruction");
-            }
             // semantic-after on a branch that targets the function body
             if mode == IMode::SemAfter && accepts(mode, &ops[at]) && dm::op_name(&ops[at]).starts_with("Br") {
                 let depth = st.depth[at];
@@ -389,6 +383,7 @@ impl Driver for SpecialNotLost {
                         continue;
                     }
                     triggers.push("semantic_after_branch_to_function_label");
+                    trigger_markers.insert(marker);
                 }
             }
             plan.push(Inj { func: f, instr: at, mode, path, payload: if mode == IMode::EmptyBlockAlt { vec![] } else { marker_payload(marker) }, marker });
@@ -431,7 +426,7 @@ impl Driver for SpecialNotLost {
             };
             if !ok {
                 fails.push(Fail {
-                    sig: format!("accepted-but-lost:{}", key),
+                    sig: if trigger_markers.contains(&inj.marker) { "class:semantic_after_branch_to_function_label".to_string() } else { format!("accepted-but-lost:{}", key) },
                     detail: format!("{:?} on `{}` was accepted but is not reflected in the output", inj, din.funcs[inj.func as usize].ops[inj.instr]),
                 });
             }
@@ -441,7 +436,7 @@ impl Driver for SpecialNotLost {
         }
         if !fails.is_empty() {
             c.note(|| format!("OUTPUT\n{}", dm::print_wat(&ap.out)));
-            return by_trigger(&triggers, Outcome::FailMany(fails));
+            return Outcome::FailMany(fails);
         }
         if accepted >= 1 {
             c.nontrivial(fnv(&bytes) ^ fnv(render_plan(&plan).as_bytes()));
